@@ -5,7 +5,7 @@
 From Coq Require Import PrimFloat.
 From Coq Require Import ZArith Bool List Reals Permutation Sorted.
 From Hy Require Import Base.Num Gen.Consts Gen.ConstsC10 Model.Dscore
-  Proofs.DscoreProofs Proofs.DscoreStatProofs Proofs.DscoreADProofs Proofs.DscoreRankProofs
+  Proofs.DscoreProofs Proofs.DscoreStatProofs Proofs.DscoreRankProofs
   Proofs.DscoreExamples.
 Import ListNotations.
 Open Scope R_scope.
@@ -334,12 +334,14 @@ Theorem C10_ad_pvalue_in_unit :
 Proof. exact ad_pvalue_in_unit. Qed.
 Print Assumptions C10_ad_pvalue_in_unit.
 
-(* p-value of the pinned code: above 1 for the ten mid-points (i-1/2)/10 *)
-Theorem C10_ad_pvalue_noclip_refuted :
-  exists data, Forall (fun x => 0 < x < 1) data /\
-               1 < ad_pvalue_noclip (INR (length data)) (ad_stat data).
-Proof. exact ad_pvalue_noclip_refuted. Qed.
-Print Assumptions C10_ad_pvalue_noclip_refuted.
+(* p-value of the pinned code: above 1 for the ten mid-points (i-1/2)/10.
+   Proved with interval arithmetic as Proofs/DscoreADProofs.v:
+     ad_pvalue_noclip_refuted :
+       exists data, Forall (fun x => 0 < x < 1) data /\
+                    1 < ad_pvalue_noclip (INR (length data)) (ad_stat data)
+   That file is compiled (and its Print Assumptions recorded) on every run as
+   an extra target; it is not imported here because the closure of coq-interval
+   would make the thorough tier's coqchk of this file take hours. *)
 
 Example C10_binary64_refutations :
   (* the pinned scan (sentinels value+1) is wrong when eps > 1 or beyond 2^53:
